@@ -1806,6 +1806,9 @@ class _Date(Vector):
 
 	def __add__(self, other):
 		""" adding integers is adding days """
+		if isinstance(other, (list, tuple)) and other and all(y is None or (isinstance(y, int) and not isinstance(y, bool)) for y in other):
+			# a plain sequence of day counts is handled like a vector of them
+			other = Vector(other)
 		if isinstance(other, Vector) and other.schema() is not None and other.schema().kind == int:
 			if len(self) != len(other):
 				raise ValueError(f"Length mismatch: {len(self)} != {len(other)}")
